@@ -14,6 +14,7 @@
 package c09
 
 import (
+	"encoding/binary"
 	"bytes"
 	"encoding/hex"
 	"fmt"
@@ -914,16 +915,40 @@ func probeSub(t *rapid.T, format int, gid uint16) []byte {
 		g['B'] = 200
 		g[0x80] = 201
 		return refcmap.EncodeFormat6(&g, 0, chooser{t})
+	case 13:
+		// many-to-one range mappings (specification-conformant; the library has no decoder for it)
+		b := []byte{0, 13, 0, 0, 0, 0, 0, 16 + 3*12, 0, 0, 0, 0, 0, 0, 0, 3}
+		for _, g := range [][2]uint32{{'A', uint32(gid)}, {'B', 200}, {0x80, 201}} {
+			b = binary.BigEndian.AppendUint32(b, g[0])
+			b = binary.BigEndian.AppendUint32(b, g[0])
+			b = binary.BigEndian.AppendUint32(b, g[1])
+		}
+		return b
+	case 10:
+		// trimmed array with 32-bit codes: 'A', 'B'
+		b := []byte{0, 10, 0, 0, 0, 0, 0, 20 + 2*2, 0, 0, 0, 0, 0, 0, 0, 'A', 0, 0, 0, 2}
+		b = binary.BigEndian.AppendUint16(b, gid)
+		return binary.BigEndian.AppendUint16(b, 200)
 	default:
 		return cmap.Format12{'A': glyph.ID(gid), 'B': 200, 0x80: 201, 0x1F600: 3}.Encode(0)
 	}
 }
 
+// usableFormat: the subtable formats the library decodes.
+func usableFormat(f int) bool { return f == 0 || f == 4 || f == 6 || f == 12 }
+
 func TestC09GetBest(t *testing.T) {
 	rapid.Check(t, func(t *rapid.T) {
 		T := cmap.Table{}
 		var desc []string
+		// first: the first key of the preference order that holds a subtable
+		// in a format the library decodes.  Keys before it may hold subtables
+		// in formats it has no decoder for (13, 10: valid per specification,
+		// accepted by cmap.Decode): those cannot be "the best subtable" for
+		// this library; an implementation that could decode them would be
+		// right to choose them, so both outcomes are accepted below.
 		first := -1
+		formats := map[int]int{}
 		for i, k := range bestOrder {
 			if !rapid.Bool().Draw(t, fmt.Sprintf("has(%d,%d)", k.PlatformID, k.EncodingID)) {
 				continue
@@ -931,15 +956,16 @@ func TestC09GetBest(t *testing.T) {
 			var format int
 			switch {
 			case i < 2:
-				format = rapid.SampledFrom([]int{12, 12, 4}).Draw(t, "format")
+				format = rapid.SampledFrom([]int{12, 12, 4, 13, 10}).Draw(t, "format")
 			case i < 4:
-				format = rapid.SampledFrom([]int{4, 4, 12, 6}).Draw(t, "format")
+				format = rapid.SampledFrom([]int{4, 4, 12, 6, 13, 10}).Draw(t, "format")
 			default:
 				format = rapid.SampledFrom([]int{0, 6, 4}).Draw(t, "format")
 			}
 			T[k] = probeSub(t, format, uint16(i+1))
+			formats[i] = format
 			desc = append(desc, fmt.Sprintf("(%d,%d):format%d", k.PlatformID, k.EncodingID, format))
-			if first < 0 {
+			if first < 0 && usableFormat(format) {
 				first = i
 			}
 		}
@@ -966,7 +992,17 @@ func TestC09GetBest(t *testing.T) {
 		if pn := guard.Try(func() { sub, err = tab.GetBest() }); pn != nil {
 			fail("GetBest: %s", pn)
 		}
-		if first < 0 {
+		if first < 0 && len(formats) > 0 {
+			// only subtables in formats without a decoder: an error, or (for an
+			// implementation that decodes them) one of those subtables
+			if err == nil {
+				var g glyph.ID
+				guard.Try(func() { g = sub.Lookup('A') })
+				if f, ok := formats[int(g)-1]; !ok || usableFormat(f) {
+					fail("GetBest returned a subtable ('A' -> %d) that is none of the candidates", g)
+				}
+			}
+		} else if first < 0 {
 			if err == nil {
 				var g glyph.ID
 				guard.Try(func() { g = sub.Lookup('A') })
@@ -980,12 +1016,20 @@ func TestC09GetBest(t *testing.T) {
 			if pn := guard.Try(func() { g = sub.Lookup('A'); g2 = sub.Lookup('B') }); pn != nil {
 				fail("Lookup: %s", pn)
 			}
-			if int(g) != first+1 || g2 != 200 {
+			chosen := int(g) - 1
+			earlierExotic := false
+			if f, ok := formats[chosen]; ok && chosen >= 0 && chosen < first && !usableFormat(f) {
+				earlierExotic = true // a more preferred key in a format this test does not expect the library to decode
+			}
+			if (chosen != first && !earlierExotic) || g2 != 200 {
 				which := "a distractor"
 				if g >= 1 && int(g) <= len(bestOrder) {
 					which = fmt.Sprint(bestOrder[g-1])
 				}
 				fail("GetBest chose %s ('A' -> %d), want %v ('A' -> %d)", which, g, bestOrder[first], first+1)
+			}
+			if earlierExotic {
+				first = chosen
 			}
 			// every probe subtable maps code 0x80 to glyph 201.  Through a
 			// Unicode key that is U+0080; through the Macintosh key (1,0) the
